@@ -368,12 +368,13 @@ func propTable() map[string]PropSpec {
 		return []TaskSpec{
 			{Harness: "HarnessC08Chunks", ArgSets: chunks, Reach: []string{"C08.chunks.end"}},
 			{Harness: "HarnessC08Auto", ArgSets: autos, Reach: []string{"C08.auto.end"}},
+			{Harness: "HarnessC08Short", ArgSets: [][]int64{{0, 188, 1}, {0, 188, 4}, {1, 188, 1}, {1, 188, 2}, {1, 188, 4}, {2, 188, 1}, {2, 188, 4}, {2, 190, 2}, {0, 191, 1}, {2, 192, 1}, {1, 188, 5}, {2, 188, 5}}, Reach: []string{"C08.short.end"}},
 			{Harness: "HarnessC08Size", ArgSets: sizes, Reach: []string{"C08.size.end"}},
 		}
 	}
 	t["C08"] = PropSpec{ID: "C08", Quick: c08(false), Thorough: c08(true),
 		Bounds: map[string]string{
-			"quick":    "5-packet stream (PAT, PMT, 2 PES units) read through seekable / plain / bufio readers whose first three Read calls return at most c1,c2,c3 bytes for every (c1,c2,c3) in {1,2,100,size-1,size,size+1,193,400}^3, explicit and auto-detected size; auto-detection for every packet size 188..192 on every reader kind; packets carried in 188+4 and 188+16 bytes with arbitrary extra bytes for the C11 adaptation-field layouts, through parsePacket and through NextPacket with an explicit size; explicit sizes 192 and 204",
+			"quick":    "5-packet stream (PAT, PMT, 2 PES units) read through seekable / plain / bufio readers whose first three Read calls return at most c1,c2,c3 bytes for every (c1,c2,c3) in {1,2,100,size-1,size,size+1,193,400}^3, explicit and auto-detected size; auto-detection for every packet size 188..192 on every reader kind; auto-detection on streams that end inside the 193-byte detection window (one packet of 188/190/191/192 bytes plus 1..5 bytes); packets carried in 188+4 and 188+16 bytes with arbitrary extra bytes for the C11 adaptation-field layouts, through parsePacket and through NextPacket with an explicit size; explicit sizes 192 and 204",
 			"thorough": "fragmentation also for 192-byte packets",
 		},
 		Outside: "more than three short reads per stream (each read goes through the same io.ReadFull loop); streams longer than 5 packets; table contents are concrete in these streams (auto-detection compares every byte with the sync byte)"}
